@@ -54,7 +54,7 @@ def build_case(rng):
                 secs.append((b"ED", ver, sub, comp, cr + b"\0\0\0" + payload))
                 meta.append(dict(kind="ud", creator=cr.decode(), comp=comp, sub=sub, ver=ver, payload=payload))
         else:
-            ref = rng.choice(["BD8D1234", "BD12E500", "BC8A1234", "B7001111", "11001234", "BD8DE510", "BDA0e5FF"])
+            ref = rng.choice(["BD8D1234", "BD12E500", "BC8A1234", "B7001111", "11001234", "BD8DE510", "BDA0e5FF", "BC8DE510", "BC8Ae5FF", "BD8D1210", "BC8D1210"])
             proc = rng.choice([None, "BMC0001", "FAIL0001", "XYZ", "BMC0008"])
             body, words = src_body(rng, ref, proc, wcount=rng.choice([9, 9, 1, 5]), w2=rng.choice([None, 0xFFFFFFFF]))
             secs.append((b"PS" if k == 2 else b"SS", 1, 1, 0x2000, body))
